@@ -58,6 +58,21 @@ func genBig(r *vh.Rand, w *vh.LineWriter, next int, tier string) int {
 	if tier == "thorough" {
 		emit(e, 1<<26+1, 0)
 	}
+	// worst case of the non-Cmd part: all six uint64 fields in the 9 byte fixed
+	// form, Type at the int32 extremes (6 bytes), Cmd length at the 2^14 / 2^21
+	// varint boundaries (3 / 4 byte length) - the entries that come closest to
+	// SizeUpperLimit() = EntryNonCmdFieldsSize + len(Cmd)
+	bigs := []uint64{^uint64(0), 1 << 63, 1 << 49, 1<<56 + 1}
+	for i, ty := range []int32{-2147483648, -1, 2147483647, 1 << 28} {
+		for j, n := range []uint64{1<<14 - 1, 1 << 14, 1<<21 - 1, 1 << 21} {
+			if tier != "thorough" && (i+j)%2 == 1 {
+				continue
+			}
+			w := pb.Entry{Term: bigs[(i+j)%4], Index: bigs[(i+1)%4], Type: pb.EntryType(ty), Key: bigs[(j+2)%4],
+				ClientID: bigs[(i+3)%4], SeriesID: bigs[j%4], RespondedTo: bigs[(i+j+1)%4]}
+			emit(w, n, byte(r.Intn(256)))
+		}
+	}
 	// around the limit of the running binary, when it is small enough to allocate
 	max := pb.ColferSizeMax
 	if max < bigLimitExercised && max > 1024 {
@@ -128,7 +143,11 @@ func runBig(id string, f []string, line string, obs *vh.LineWriter, st *vh.Stats
 			dec = "max"
 		}
 	}
-	obs.Printf("%s BIG SIZE %s LEN %d HEAD %s DEC %s\n", id, sizeObs, len(b), vh.Hex(head), dec)
+	upper := e.SizeUpperLimit()
+	obs.Printf("%s BIG SIZE %s UPPER %d LEN %d HEAD %s DEC %s\n", id, sizeObs, upper, len(b), vh.Hex(head), dec)
+	if len(b) > upper {
+		st.Violation(id, fmt.Sprintf("entry with %d byte Cmd: encoding %d bytes exceeds SizeUpperLimit %d (a buffer of the advertised size is overrun)", n, len(b), upper))
+	}
 	// monitor: an entry of this size is legal, it has to round-trip
 	if sizeObs == "panic" {
 		st.Violation(id, fmt.Sprintf("entry with %d byte Cmd: Size() panicked (%s); ColferSizeMax=%d", n, sizeMsg, pb.ColferSizeMax))
